@@ -647,10 +647,10 @@ func genCCFB(r *rng, sz int) *rtcp.CCFeedbackReport {
 		nm := r.intn(12)
 		bad := false
 		if sz == szLarge && r.chance(8) {
-			nm = 300 + r.intn(500)
+			nm = 100 + r.intn(200) // CCFeedbackReportBlock.String is quadratic in this number
 		}
 		if sz == szBad && i == 0 {
-			if r.chance(40) {
+			if r.chance(200) {
 				nm = 16385 + r.intn(3) // too many metric blocks (expensive: String is quadratic)
 			} else {
 				nm = 1 + r.intn(6)
